@@ -2,6 +2,7 @@ package xarun
 
 import (
 	"context"
+	"database/sql/driver"
 	"encoding/hex"
 	gosql "database/sql"
 	"errors"
@@ -30,6 +31,7 @@ import (
 type Fault struct {
 	Kind string `json:"kind"`
 	Nth  int    `json:"nth"`
+	Err  string `json:"err"` // error value the driver returns: "" generic | "badconn" driver.ErrBadConn | "ctx" context.DeadlineExceeded
 }
 
 // Op kinds:
@@ -48,6 +50,9 @@ type Op struct {
 	NStmts   int    `json:"nstmts"`
 	Reuse    bool   `json:"reuse"` // auto: run on the connection of op Target, taken back out of the pool
 	Slow     bool   `json:"slow"`  // auto: the business statement outlasts xa_branch_execution_timeout
+	Db       bool   `json:"db"`    // auto (fresh): through db.ExecContext, i.e. with database/sql's retry on
+	// driver.ErrBadConn; the two ops that follow are K="retry" and stand for the 2nd and 3rd attempt
+	// retire (K="retire"): the pool retires the connection of op Target (SetMaxIdleConns(0)): driver Close
 }
 
 type Scenario struct {
@@ -65,6 +70,7 @@ type OpResult struct {
 	Class  string `json:"class"`            // ok | err | panic | diverged | skipped
 	Status int    `json:"status,omitempty"` // p2: branch status returned by the resource manager
 	Detail string `json:"detail,omitempty"`
+	Bad    bool   `json:"bad,omitempty"`  // the returned error is (wraps) driver.ErrBadConn
 	Good   bool   `json:"good,omitempty"` // p2: returned without error and with the Committed / Rollbacked status
 	ID     string `json:"id,omitempty"` // auto: identifier of the branch this op created ("" if none)
 	EvFrom int    `json:"ev_from"`      // events [EvFrom, EvTo) were produced by this op
@@ -209,11 +215,104 @@ func runScenario(sc Scenario) Result {
 	prepOn := map[int]bool{}    // physical connection -> a branch was prepared on it
 	startOK := map[int]bool{}   // op index -> its XA START was accepted
 	tags := map[string]bool{}
+	pre := map[int]OpResult{} // results of the retry ops that follow a db-mode statement
+	preFrom, preTo := 0, 0
 	for i, op := range sc.Ops {
 		var r OpResult
 		evFrom := len(w.snapshot())
+		if pr, ok := pre[i]; ok && op.K == "retry" {
+			r = pr
+			r.EvFrom, r.EvTo = preFrom, preTo
+			res.Ops = append(res.Ops, r)
+			continue
+		}
 		switch op.K {
+		case "retire":
+			conn := opConn[op.Target]
+			if conn == nil {
+				r = OpResult{Class: "skipped"}
+				break
+			}
+			hutil.Guard(5*time.Second, func() error {
+				db.SetMaxIdleConns(0)
+				conn.Close()
+				db.SetMaxIdleConns(2)
+				return nil
+			})
+			for k, c := range opConn {
+				if c == conn {
+					delete(opConn, k)
+				}
+			}
+			opConn[i] = nil
+			r = OpResult{Class: "ok"}
 		case "auto", "local", "reuse":
+			if op.K == "auto" && op.Db {
+				// database/sql picks the connection and retries on driver.ErrBadConn
+				ctx := gctx(sc.Xids[op.G])
+				if op.Slow {
+					seatasql.VerifSetXAConnTimeout(time.Nanosecond)
+					w.setSlow(true)
+				}
+				nB := w.nconnNow()
+				before := len(w.snapshot())
+				var lastErr error
+				cl, det := hutil.Guard(10*time.Second, func() error {
+					_, e := db.ExecContext(ctx, stmtSQL)
+					lastErr = e
+					return e
+				})
+				w.setSlow(false)
+				seatasql.VerifSetXAConnTimeout(time.Hour)
+				attempts := w.nconnNow() - nB
+				if attempts < 1 {
+					attempts = 1
+				}
+				final := OpResult{Class: cl, Detail: clip(det), Bad: lastErr != nil && errors.Is(lastErr, driver.ErrBadConn)}
+				evs := w.snapshot()
+				preFrom, preTo = before, len(evs)
+				for j := 0; j < 3; j++ {
+					var a OpResult
+					switch {
+					case j < attempts-1:
+						a = OpResult{Class: "err", Bad: true, Detail: "driver: bad connection (retried by database/sql)"}
+					case j == attempts-1:
+						a = final
+					default:
+						a = OpResult{Class: "skipped"}
+					}
+					if j < attempts {
+						opPhysAll[i+j] = nB + j
+						for _, ev := range evs[before:] {
+							if ev.K == "sql" && ev.Cmd == "START" && ev.Conn == nB+j {
+								a.ID = ev.ID
+								opID[i+j] = ev.ID
+								opPhys[i+j] = ev.Conn
+								startOK[i+j] = ev.Res == "ok"
+							}
+							if ev.K == "sql" && ev.Cmd == "PREPARE" && ev.Res == "ok" {
+								prepOn[ev.Conn] = true
+							}
+						}
+					}
+					if j == 0 {
+						r = a
+					} else {
+						pre[i+j] = a
+					}
+				}
+				if !final.Bad && cl != "panic" && cl != "diverged" {
+					// the connection went back to the pool: take it out again so that nothing idles
+					if c, cerr := db.Conn(context.Background()); cerr == nil {
+						pinned = append(pinned, c)
+						opConn[i+attempts-1] = c
+						if w.nconnNow() != nB+attempts {
+							res.Oracle = append(res.Oracle, "harness: the pool did not hand back the connection of the statement")
+						}
+					}
+				}
+				break
+			}
 			var conn *gosql.Conn
 			reused := false
 			if op.K == "reuse" || (op.K == "auto" && op.Reuse) {
@@ -260,13 +359,18 @@ func runScenario(sc Scenario) Result {
 				seatasql.VerifSetXAConnTimeout(time.Hour)
 			}
 			before := len(w.snapshot())
+			var lastErr error
 			cl, det := hutil.Guard(5*time.Second, func() error {
 				_, e := conn.ExecContext(ctx, stmtSQL)
+				lastErr = e
 				return e
 			})
 			w.setSlow(false)
 			seatasql.VerifSetXAConnTimeout(time.Hour)
-			r = OpResult{Class: cl, Detail: clip(det)}
+			r = OpResult{Class: cl, Detail: clip(det), Bad: lastErr != nil && errors.Is(lastErr, driver.ErrBadConn)}
+			if r.Bad {
+				delete(opConn, i) // database/sql closed the sql.Conn and dropped the connection
+			}
 			for _, ev := range w.snapshot()[before:] {
 				if ev.K == "sql" && ev.Cmd == "START" {
 					r.ID = ev.ID
@@ -382,7 +486,9 @@ func runScenario(sc Scenario) Result {
 	}
 	res.Other = len(w.other)
 	w.mu.Unlock()
+	hn := res.Oracle
 	res.Oracle, res.Legal = oracle(&sc, &res)
+	res.Oracle = append(hn, res.Oracle...)
 	return res
 }
 
@@ -599,7 +705,7 @@ func oracle(sc *Scenario, r *Result) (fails []string, legal bool) {
 			if !op.Commit && id != "" && state[id] != 5 && state[id] != 0 {
 				bad("op %d: explicit transaction rolled back but its branch '%s' was not rolled back at the database (state %d)", i, id, state[id])
 			}
-		case "auto", "reuse":
+		case "auto", "reuse", "retry":
 			// outcome must tell the truth: ok <=> its branch is PREPARED (or later finished by phase two)
 			id := o.ID
 			prepared := id != "" && prefixPrepared(r.Events, id)
